@@ -20,7 +20,9 @@ META = dict(
     bounds=['fibre length in (0, 1000] km symbolic; max_length in {100,150} km, padding in {10,12} dB',
             'spliced span of two fibres and a fused element; all dB quantities symbolic',
             'shape grammar: chain/ring/star/mesh of 2-4 ROADM sites, fused junctions, user amplifiers with full/partial/no settings, '
-            'over-long spans, short spans, mixed user connector losses (listed in the evidence)'],
+            'over-long spans, short spans, mixed user connector losses (listed in the evidence); optionally a transceiver plugged straight onto a '
+            'one- or two-fibre line at the first site; library max_length given in km or in m',
+            'split of fibres with scalar, per-frequency loss, per-frequency dispersion and one lumped loss (at 60 km)'],
     assumptions=['floats as reals', 'pipeline-level harness uses concrete numeric parameters per shape (structure obligations do not depend '
                  'on solver queries); topologies outside the grammar are outside the claim'],
     stubs=[],
